@@ -153,6 +153,14 @@ def main():
             if len(t.encode()) % 4 != pad:
                 t = "#" * ((pad - len(text) - 1) % 4) + "\n" + text
             variants.append(("one DSB, last line unterminated, text length = %d mod 4, no -s" % (len(t.encode()) % 4), synth.pcapng(pk, dsbs_before=[t]), None))
+        # the log split over two and over three adjacent blocks whose texts do NOT end with a line terminator (a block is a text of its own:
+        # its last line ends with the block), and over one block per line
+        variants.append(("two DSBs before the packets, both texts unterminated, no -s", synth.pcapng(pk, dsbs_before=[t_ for t_ in ["\n".join(lines[:half]), "\n".join(lines[half:])] if t_]), None))
+        if len(lines) >= 3:
+            a_, b_ = sorted(rng.sample(range(1, len(lines)), 2))
+            variants.append(("three DSBs before the packets, CRLF inside and unterminated, no -s",
+                             synth.pcapng(pk, dsbs_before=["\r\n".join(lines[:a_]), "\r\n".join(lines[a_:b_]), "\r\n".join(lines[b_:])]), None))
+        variants.append(("one DSB per line, unterminated, no -s", synth.pcapng(pk, dsbs_before=list(lines)), None))
         variants.append(("file (half) + DSB (other half, CRLF)", synth.pcapng(pk, dsbs_before=["\r\n".join(lines[half:]) + "\r\n"]), "\n".join(lines[:half]) + "\n"))
         if not has_quic:
             mid = rng.randrange(len(pk) + 1)
@@ -171,7 +179,7 @@ def main():
                 fails.append({"what": "%s: export differs from the export with the plain key-log file (%s, %s bytes vs %s, %s bytes); connections %s" % (
                     label, st2, len(out2 or b""), st, len(base or b""), [c.kind for c in case.conns]), "capture": cap.hex(), "keylog": keylog.decode("latin-1") if isinstance(keylog, bytes) else keylog, "args": args,
                     "baseline_capture": case.capture.hex(), "baseline_keylog": case.keylog})
-            if m and n_model > 0 and label.startswith(("two DSBs", "DSB in the middle")):
+            if m and n_model > 0 and label.startswith(("two DSBs before the packets, no -s", "DSB in the middle")):
                 n_model -= 1
                 kt = keylog if keylog is not None else ""
                 mt = tlsgen.canon_model(m.ask("run_file", options_arg(meta=bool(args)), impl.secrets_arg(kt), impl.items_arg(cap)))
